@@ -15,6 +15,7 @@ import (
 	"fmt"
 	"io"
 	"net"
+	"os"
 	"strings"
 	"sync"
 	"time"
@@ -35,6 +36,11 @@ func init() {
 	// every sync.Pool of the rewritten packages hands out the object released last
 	vsync.PoolLIFO = true
 }
+
+// vkSlowFor: how long the stub takes for names starting with "slow" — longer than tcpQueryWait / tcpWriteWait (2 s).
+const vkSlowFor = 3 * time.Second
+
+const vkDeadlineSlack = 500 * time.Millisecond
 
 // ---- marker stub: the "upstream"
 
@@ -59,11 +65,21 @@ func (s *vkMStub) ServeDNS(ctx context.Context, ch *middleware.Chain) {
 		return
 	}
 	q := req.Question[0]
+	if strings.HasPrefix(q.Name, "slow") {
+		time.Sleep(vkSlowFor) // a resolution that outlasts the connection's per-frame and write allowances
+	}
 	m := new(dns.Msg)
 	m.SetReply(req)
 	m.RecursionAvailable = true
 	m.Answer = []dns.RR{&dns.TXT{Hdr: dns.RR_Header{Name: q.Name, Rrtype: dns.TypeTXT, Class: q.Qclass, Ttl: 3600},
 		Txt: []string{vkMarker(q.Name, req.Id)}}}
+	if strings.HasPrefix(q.Name, "huge") {
+		// a reply beyond 8 KiB (what the stream stages at once): 45 filler records behind the marker
+		for i := 0; i < 45; i++ {
+			m.Answer = append(m.Answer, &dns.TXT{Hdr: dns.RR_Header{Name: q.Name, Rrtype: dns.TypeTXT, Class: q.Qclass, Ttl: 3600},
+				Txt: []string{strings.Repeat(string(rune('a'+i%26)), 200)}})
+		}
+	}
 	_ = ch.Writer.WriteMsg(m)
 	ch.Cancel()
 	if strings.HasPrefix(q.Name, "panic") {
@@ -152,6 +168,12 @@ type vkConn struct {
 	writes  int
 	closed  bool
 	remote  *net.TCPAddr
+	// dl: the deadline on the connection (absolute, as on a socket). A write attempted more than vkDeadlineSlack
+	// after it fails with an i/o timeout, as a socket's would. Every deadline the engine arms lies 2 s or more
+	// ahead, so only a deadline left over from an earlier step of the connection — or a stall of this machine
+	// of 2.5 s between arming and writing, twice in a row (violations are re-run in a fresh world) — gets there.
+	dl          time.Time
+	staleWrites int
 }
 
 func vkNewConn(tag string, n int) *vkConn {
@@ -186,6 +208,10 @@ func (c *vkConn) Write(b []byte) (int, error) {
 		// a real socket refuses writes after Close: what the engine writes from then on never reaches the peer
 		return 0, net.ErrClosed
 	}
+	if !c.dl.IsZero() && time.Now().After(c.dl.Add(vkDeadlineSlack)) {
+		c.staleWrites++
+		return 0, os.ErrDeadlineExceeded
+	}
 	c.out = append(c.out, b...)
 	c.writes++
 	return len(b), nil
@@ -197,11 +223,16 @@ func (c *vkConn) Close() error {
 	c.mu.Unlock()
 	return nil
 }
-func (c *vkConn) LocalAddr() net.Addr                { return &net.TCPAddr{IP: net.IPv4(127, 0, 0, 1), Port: 53} }
-func (c *vkConn) RemoteAddr() net.Addr               { return c.remote }
-func (c *vkConn) SetDeadline(t time.Time) error      { return nil }
-func (c *vkConn) SetReadDeadline(t time.Time) error  { return nil }
-func (c *vkConn) SetWriteDeadline(t time.Time) error { return nil }
+func (c *vkConn) LocalAddr() net.Addr               { return &net.TCPAddr{IP: net.IPv4(127, 0, 0, 1), Port: 53} }
+func (c *vkConn) RemoteAddr() net.Addr              { return c.remote }
+func (c *vkConn) SetDeadline(t time.Time) error     { return c.SetWriteDeadline(t) }
+func (c *vkConn) SetReadDeadline(t time.Time) error { return nil }
+func (c *vkConn) SetWriteDeadline(t time.Time) error {
+	c.mu.Lock()
+	c.dl = t
+	c.mu.Unlock()
+	return nil
+}
 
 func (c *vkConn) output() ([]byte, int) {
 	c.mu.Lock()
@@ -270,7 +301,7 @@ type vkFrame struct {
 var vkFrameKinds = []string{"hit", "miss", "malf", "qr", "notify", "short", "big2048", "big2049", "big4200", "panic", "eager", "ckhit", "edhit"}
 
 // vkHitKind: the frame asks the client's pre-cached name.
-func vkHitKind(k string) bool { return k == "hit" || k == "ckhit" || k == "edhit" }
+func vkHitKind(k string) bool { return k == "hit" || k == "ckhit" || k == "edhit" || k == "hugehit" }
 
 // vkEDNSQueryBytes is a query with an OPT record and, when cookie is set, an
 // EDNS COOKIE option whose 8 client bytes are the given text.
@@ -341,7 +372,11 @@ func vkMakeFrame(kind, tag string, pos int) vkFrame {
 	case "edhit":
 		f.Name = fmt.Sprintf("hit.%s.c10.test.", tag)
 		f.Raw = vkEDNSQueryBytes(f.Name, id, "")
-	case "miss", "eager":
+	case "hugehit":
+		// a cached ~9.5 KiB answer (warmed by warmHuge): served on the strict path like any hit
+		f.Name = fmt.Sprintf("hugehit.%s.c10.test.", tag)
+		f.Raw = vkQueryBytes(f.Name, id, 0)
+	case "miss", "eager", "slow", "huge":
 		f.Raw = vkQueryBytes(f.Name, id, 0)
 	case "panic":
 		// the handler answers and then panics: the engine drops the connection;
@@ -402,6 +437,29 @@ func (w *vkSrvWorld) warm(tags ...string) string {
 		out, _ := c.output()
 		if len(out) < 14 || out[5]&0x0f != 0 {
 			return fmt.Sprintf("warm-up query for %s was not answered NOERROR (%d bytes)", f.Name, len(out))
+		}
+	}
+	return ""
+}
+
+// warmHuge caches the per-client "hugehit" name (~9.5 KiB answer), through the engine itself.
+func (w *vkSrvWorld) warmHuge(tags ...string) string {
+	for i, tag := range tags {
+		name := fmt.Sprintf("hugehit.%s.c10.test.", tag)
+		f := vkFrame{Raw: vkQueryBytes(name, 0x7800|uint16(i), 0)}
+		c := vkNewConn("warmhuge", 95+i)
+		if h := w.start(c); h != "" {
+			return h
+		}
+		if _, h := c.deliver(f.framed()); h != "" {
+			return h
+		}
+		if h := c.eof(); h != "" {
+			return h
+		}
+		out, _ := c.output()
+		if len(out) < 8192 || out[5]&0x0f != 0 {
+			return fmt.Sprintf("warm-up query for %s was not answered NOERROR with the large answer (%d bytes)", name, len(out))
 		}
 	}
 	return ""
@@ -508,6 +566,19 @@ func vkJudgeStreamAt(tag string, complete []vkFrame, out []byte, foreign [][]byt
 		case "answer":
 			if m.Rcode != dns.RcodeSuccess || len(m.Question) != 1 || !strings.EqualFold(m.Question[0].Name, f.Name) || m.Question[0].Qtype != dns.TypeTXT {
 				return fmt.Sprintf("%s: not an answer to its question: %s", where, strings.ReplaceAll(m.String(), "\n", " | "))
+			}
+			if f.Kind == "huge" || f.Kind == "hugehit" {
+				// the marker plus its 45 filler records, in whatever order the cache hands them out
+				if len(m.Answer) != 46 || len(r) < 8192 {
+					return fmt.Sprintf("%s: %d answer records in %d bytes, want the marker and its 45 filler records (> 8 KiB)", where, len(m.Answer), len(r))
+				}
+				for i, rr := range m.Answer {
+					if t, ok := rr.(*dns.TXT); ok && len(t.Txt) == 1 && strings.HasPrefix(t.Txt[0], "vk|") {
+						m.Answer[0], m.Answer[i] = m.Answer[i], m.Answer[0]
+						break
+					}
+				}
+				m.Answer = m.Answer[:1]
 			}
 			if len(m.Answer) != 1 {
 				return fmt.Sprintf("%s: %d answer records, want the 1 marker record", where, len(m.Answer))
